@@ -52,9 +52,54 @@ class ArgDecl:
         self.has_default = d is not None
 
 
+class _RowSubst(ast.NodeTransformer):
+    """row.attr / row[k] / row, for a loop variable bound to a constant record, replaced by the constant it denotes (only strings,
+    numbers, booleans and None; anything else stays as written)."""
+
+    def __init__(self, binding):
+        self.binding = binding
+
+    @staticmethod
+    def _const(v, at):
+        if v is None or (isinstance(v, (str, int, float, bool)) and not isinstance(v, T)):
+            return ast.copy_location(ast.Constant(v if not isinstance(v, (str, int)) or isinstance(v, bool) else (str(v) if isinstance(v, str) else int(v))), at)
+        return None
+
+    def visit_Attribute(self, n):
+        from ..evalr import _Obj
+        if isinstance(n.value, ast.Name) and n.value.id in self.binding and isinstance(n.ctx, ast.Load):
+            row = self.binding[n.value.id]
+            if isinstance(row, _Obj) and n.attr in row.fields:
+                c = self._const(row.fields[n.attr], n)
+                if c is not None:
+                    return c
+            return n
+        return self.generic_visit(n)
+
+    def visit_Subscript(self, n):
+        if isinstance(n.value, ast.Name) and n.value.id in self.binding and isinstance(n.slice, ast.Constant) and isinstance(n.ctx, ast.Load):
+            row = self.binding[n.value.id]
+            try:
+                from ..evalr import _Obj
+                v = list(row.fields.values())[n.slice.value] if isinstance(row, _Obj) and row.tuple_like else row[n.slice.value]
+            except Exception:
+                return n
+            c = self._const(v, n)
+            return c if c is not None else n
+        return self.generic_visit(n)
+
+    def visit_Name(self, n):
+        if n.id in self.binding and isinstance(n.ctx, ast.Load):
+            c = self._const(self.binding[n.id], n)
+            if c is not None:
+                return c
+        return n
+
+
 class ParserModel:
-    def __init__(self, prog):
+    def __init__(self, prog, ev=None):
         self.prog = prog
+        self.ev = ev
         self.mod = prog.module("bits.__main__")
         self.decls = []
         self.parsers = {}  # var -> parser name
@@ -87,7 +132,44 @@ class ParserModel:
             return
         if isinstance(st, (ast.Return, ast.Expr, ast.Pass)):
             return
+        if isinstance(st, ast.For) and not st.orelse and self.ev is not None:
+            # parsers declared by a loop over a module-level table of records: the loop is unrolled over the table's (constant) rows
+            rows = self.table_rows(st.iter)
+            if rows is not None:
+                import copy
+                for row in rows:
+                    binding = self.bind_row(st.target, row)
+                    if binding is None:
+                        rows = None
+                        break
+                    for b in st.body:
+                        self.stmt(_RowSubst(binding).visit(copy.deepcopy(b)))
+                if rows is not None:
+                    return
         self.unmodelled.append(ast.unparse(st)[:80])
+
+    def table_rows(self, node):
+        from ..evalr import Frame, Summary, _Obj
+        try:
+            v = self.ev.expr(node, Frame(self.ev, self.mod.name, None, Summary(None), 0))
+        except Exception:
+            return None
+        if isinstance(v, dict):
+            v = list(v)
+        if not isinstance(v, (list, tuple)) or isinstance(v, T):
+            return None
+        return list(v)
+
+    @staticmethod
+    def bind_row(target, row):
+        from ..evalr import _Obj
+        if isinstance(target, ast.Name):
+            return {target.id: row}
+        if isinstance(target, (ast.Tuple, ast.List)) and all(isinstance(e, ast.Name) for e in target.elts):
+            vals = list(row.fields.values()) if isinstance(row, _Obj) and row.tuple_like else (list(row) if isinstance(row, (tuple, list)) else None)
+            if vals is not None and len(vals) == len(target.elts):
+                return {e.id: v for e, v in zip(target.elts, vals)}
+        return None
 
     def expr_call(self, call):
         p = dotted_parts(call.func)
@@ -177,7 +259,7 @@ def run(ctx):
     R.check("C20.4", "TABLE", fcfg, "Config.__init__ reads a fixed list of names with constant defaults", bool(keys) and not other,
             "Config.__init__ does something else than `self.K = kwargs.get('K', <constant>)`: %s" % other, example="a configuration file with unknown keys")
     R.floor("C20.1", len(keys), 8, "config_keys")
-    pm = ParserModel(ctx.prog).run()
+    pm = ParserModel(ctx.prog, ctx.evaluator()).run()
     fsp = ctx.fn(M + "setup_parser")
     if pm.unmodelled:  # not a verdict on the code: the model does not cover what it sees
         R.error("C20.1", "setup_parser: statements outside the argparse model: %s" % pm.unmodelled[:3])
